@@ -381,6 +381,9 @@ func parkedSummary(h *sc.History) string {
 	return strings.Join(fr, " | ")
 }
 
+// TopFrames: the two innermost process-compose frames of a goroutine dump entry.
+func TopFrames(body string) string { return topFrames(body) }
+
 func topFrames(body string) string {
 	var names []string
 	for _, ln := range strings.Split(body, "\n") {
